@@ -70,6 +70,11 @@ add("C08", "model-based testing of generated indexing histories over dynamic arr
     "Trusts the reference interpreter's list model. One recorded finding (index variable reassigned in an untaken branch is mis-rejected) is excluded by construction.",
     "DESIGN.md §4 C08")
 
+add("C05", "property-based testing with a dynamic-witness oracle: generated control-flow shapes executed by a reference interpreter (rapid)",
+    "Generated non-void functions, methods and function literals nest if/else-if/else, int and enum match with and without default, fuelled while, `while true`, for-range, break/continue and early returns; main calls them on generated arguments. The reference interpreter executes the calls: if a call falls off the end of a non-void body the compiler must have rejected the program; an accepted program whose calls all return must print the interpreter's values (so a fall-through compiled to a garbage return is seen on either side). Exploration.",
+    "Sound but not complete: only fall-off paths taken by a generated call are witnessed; rejections by the (conservative) return analysis are never failures. Trusts the reference interpreter.",
+    "DESIGN.md §4 C05")
+
 def main():
     props = [json.loads(l) for l in open(os.path.join(V, "properties.jsonl"))]
     checks, na = [], []
